@@ -88,19 +88,6 @@ var (
 
 func stat(k string, n int) { statMu.Lock(); stats[k] += n; statMu.Unlock() }
 
-var filesSeen = map[uint64]bool{}
-
-// noteFile counts the distinct files whose crash points are enumerated.
-func noteFile(content string) {
-	statMu.Lock()
-	defer statMu.Unlock()
-	h := vkit.Hash64(content)
-	if !filesSeen[h] {
-		filesSeen[h] = true
-		stats["files_enumerated"]++
-	}
-}
-
 // ------------------------------------------------------------------ tracing
 
 type event struct {
@@ -550,7 +537,7 @@ func oracle(c Case) vkit.Outcome {
 	var pts []point
 	if c.Syscall == "" {
 		pts = fi.points
-		noteFile(c.Content)
+		stat("files_enumerated_as_one_case", 1)
 	} else {
 		for _, p := range fi.points {
 			if p.Name == c.Syscall && p.When == c.When {
@@ -650,7 +637,6 @@ func fixedCases() []Case {
 			cs = append(cs, f) // the oracle reports why
 			continue
 		}
-		noteFile(f.Content)
 		for _, p := range fi.points {
 			cs = append(cs, Case{Name: f.Name, Content: f.Content, Syscall: p.Name, When: p.When})
 		}
@@ -800,6 +786,11 @@ func TestC36(t *testing.T) {
 			for k, v := range stats {
 				m[k] = v
 			}
+			var names []string
+			for _, f := range fixedFiles() {
+				names = append(names, f.Name)
+			}
+			m["files_enumerated_point_by_point"] = fmt.Sprintf("%d fixed files (%s), their crash points distributed over the shards", len(names), strings.Join(names, ", "))
 			return m
 		},
 	})
